@@ -399,7 +399,15 @@ def tp_case(draw):
     v = st.one_of(st.integers(24 * 8, 96 * 8).map(lambda k: k / 8), st.sampled_from([60.0, 60.5, 72.0, 72.5, 48.0, 59.5, 71.5]))
     fr = st.lists(v, max_size=5, unique=True)
     ref = [draw(fr) for _ in range(nf)]
-    est = [draw(fr) for _ in range(nf)]
+    est = []
+    for r in ref:
+        if r and draw(st.integers(0, 2)) == 0:
+            # a cluster of estimates around one reference pitch (at most one of them can be matched to it)
+            c = r[draw(st.integers(0, len(r) - 1))]
+            e = sorted({c + o for o in draw(st.lists(st.sampled_from([0.0, 0.125, -0.125, 0.25, -0.25, 0.375, -0.375, 0.5, -0.5]), min_size=2, max_size=4, unique=True))})
+            est.append([x for x in e if x >= 0])
+        else:
+            est.append(draw(fr))
     return {"ref": ref, "est": est, "window": draw(st.sampled_from([0.25, 0.5, 1.0, 0.125]))}
 
 
